@@ -693,6 +693,42 @@ Renumber(d, tok) ==
       lights |-> SortById(Map(d.lights, light)), inters |-> SortById(Map(d.inters, inter)),
       obstacles |-> SortById(Map(d.obstacles, obst)), pps |-> SortById(Map(d.pps, pp)), ids |-> tok]
 
+(* ------------------------------ writer reuse ------------------------------------------------------------------ *)
+(* "Every scenario ... writing it and reading it back yields the same content" includes a scenario that was EDITED     *)
+(* after an earlier write with the same writer object.  A case may carry  reuse = <<[edit, w2]>> :                  *)
+(*   write#1 (write_to_file) -> the scenario / planning problem set is edited in place -> write#2 with the SAME      *)
+(*   writer (w2 = "full": write_to_file, "scenario": write_scenario_to_file) -> write#2 is read back.                 *)
+(* EditOf is the descriptor of the edited objects, WrittenBy what write#2 is asked to write (no planning problems for *)
+(* a scenario-only file).  Ids of added objects are free in every id table of Renumber.                              *)
+EditTokens == <<"add_network", "remove_obstacle", "translate", "light_offset", "add_pp">>
+EditSignId(cid) == LET ok == {i \in DOMAIN SignIdT : SignIdT[i].c \in CountryClass[cid] /\ SignIdT[i].v \in EnumTrafficSignID /\ SignIdT[i].pb}
+                   IN SignIdT[CHOOSE i \in ok : \A j \in ok : i <= j]
+NewLanelet == [id |-> 5, nv |-> 2, geo |-> "one", lml |-> "SOLID", lmr |-> "DASHED", pred |-> <<>>, succ |-> <<>>, adjL |-> <<>>, adjR |-> <<>>,
+               stop |-> <<>>, types |-> <<"URBAN">>, uow |-> <<>>, ubi |-> <<>>, signs |-> <<26>>, lights |-> <<36>>]
+NewSign(cid) == [id |-> 26, els |-> <<[id |-> EditSignId(cid), av |-> <<"30">>]>>, pos |-> <<[x |-> "one", y |-> "half"]>>, virt |-> 0, first |-> <<>>]
+NewLight == [id |-> 36, cyc |-> <<[c |-> "GREEN", d |-> 4], [c |-> "RED", d |-> 6]>>, off |-> 1, pos |-> <<[x |-> "half", y |-> "one"]>>,
+             dir |-> "ALL", act |-> 1]
+NewPP == [id |-> 95,
+          init |-> [t |-> [k |-> "exact", t |-> 0], c |-> "InitialState",
+                    a |-> <<[n |-> "position", v |-> [k |-> "exact", x |-> "one", y |-> "half"]], [n |-> "orientation", v |-> [k |-> "exact", x |-> "tenth"]],
+                            [n |-> "velocity", v |-> [k |-> "exact", x |-> "ordinary"]], [n |-> "acceleration", v |-> [k |-> "exact", x |-> "zero"]],
+                            [n |-> "yaw_rate", v |-> [k |-> "exact", x |-> "zero"]], [n |-> "slip_angle", v |-> [k |-> "exact", x |-> "zero"]]>>],
+          goals |-> <<[st |-> [t |-> [k |-> "interval", lo |-> 2, hi |-> 9], a |-> <<>>, c |-> "CustomState"], lan |-> <<>>]>>,
+          g |-> [lanNone |-> 1]]
+EditApplicable(d, tok) == CASE tok = "remove_obstacle" -> d.obstacles # <<>>
+                            [] tok = "light_offset" -> d.lights # <<>>
+                            [] OTHER -> tok \in Range(EditTokens)
+Edit(d, tok) ==
+  CASE tok = "add_network" -> [d EXCEPT !.lanelets = SortById(@ \o <<NewLanelet>>), !.signs = SortById(@ \o <<NewSign(d.hdr.cid)>>),
+                                        !.lights = SortById(@ \o <<NewLight>>)]
+    [] tok = "remove_obstacle" -> [d EXCEPT !.obstacles = Tail(@)]
+    [] tok = "translate" -> d                  \* lanelet network moved by a lattice vector: same tokens, other coordinates
+    [] tok = "light_offset" -> [d EXCEPT !.lights[1].off = @ + 2]
+    [] tok = "add_pp" -> [d EXCEPT !.pps = SortById(@ \o <<NewPP>>)]
+EditOf(d, ru) == IF ru = <<>> THEN d ELSE Edit(d, ru[1].edit)
+WrittenBy(d, ru) == IF ru # <<>> /\ ru[1].w2 = "scenario" THEN [EditOf(d, ru) EXCEPT !.pps = <<>>] ELSE EditOf(d, ru)
+ReuseOK(d, ru) == ru = <<>> \/ (EditApplicable(d, ru[1].edit) /\ ru[1].w2 \in {"full", "scenario"} /\ WellFormed(EditOf(d, ru)))
+
 (* ------------------------------ C03: the document the contract demands ------------------------------------------- *)
 (* AbstractDoc(d): element entries (Xsd2020a) of an XML document that carries every XML-carried leaf of d, children in *)
 (* the order the XSD prescribes, numbers in plain decimal notation, enumerations by their schema values.  TLC checks   *)
